@@ -307,3 +307,62 @@ pub fn shape_frame(r: &mut Rng, shape: Shape, len: usize) -> FrameCase {
     let data = wl::gen(r, shape, len);
     libzstd_frame_for(r, data, format!("{shape:?}"))
 }
+
+/// Shrink the content of one compressed block so that it ends at a structural point (behind the literals
+/// header, behind the literals, behind the sequence count, behind the modes byte, inside or behind a table
+/// description, inside the bitstream), fix the block header to the new size, make it the last block and drop
+/// the rest of the frame. The damage is then met by the *section parsers* (with whatever state they have
+/// built so far) instead of being caught by the block body read.
+pub fn shrink_block_at(r: &mut Rng, bytes: &[u8], info: &FrameInfo) -> Option<(Vec<u8>, &'static str)> {
+    let mut all = all_shrinks(bytes, info);
+    if all.is_empty() {
+        return None;
+    }
+    let k = r.usize(0, all.len() - 1);
+    Some(all.swap_remove(k))
+}
+
+/// every (compressed block, structural cut point) variant of [shrink_block_at]
+pub fn all_shrinks(bytes: &[u8], info: &FrameInfo) -> Vec<(Vec<u8>, &'static str)> {
+    let mut out = Vec::new();
+    for b in info.blocks.iter().filter(|b| b.btype == 2) {
+        shrinks_of_block(bytes, b, &mut out);
+    }
+    out
+}
+
+fn shrinks_of_block(bytes: &[u8], b: &zspec::walker::BlockInfo, out: &mut Vec<(Vec<u8>, &'static str)>) {
+    let start = b.offset + 3;
+    let mut cuts: Vec<(usize, &'static str)> = Vec::new();
+    if let Some(l) = &b.literals {
+        cuts.push((l.offset + l.header_len, "block ends behind the literals header"));
+        cuts.push((l.offset + 1, "block ends inside the literals header"));
+    }
+    if let Some(s) = &b.sequences {
+        cuts.push((s.offset, "block ends behind the literals"));
+        cuts.push((s.offset + 1, "block ends behind the first sequence count byte"));
+        if let Some(m) = s.modes_byte_offset {
+            cuts.push((m, "block ends in front of the modes byte"));
+            cuts.push((m + 1, "block ends behind the modes byte"));
+        }
+        for (o, l) in s.table_desc_ranges.iter().flatten() {
+            cuts.push((*o + 1, "block ends inside a table description"));
+            cuts.push((*o + *l, "block ends behind a table description"));
+        }
+        if s.bitstream_len > 1 {
+            cuts.push((s.bitstream_offset + 1, "block ends inside the sequence bitstream"));
+            cuts.push((s.bitstream_offset + s.bitstream_len - 1, "block ends one byte early"));
+        }
+    }
+    cuts.retain(|(c, _)| *c > start && *c <= start + b.body_len && *c <= bytes.len());
+    cuts.sort();
+    cuts.dedup_by_key(|c| c.0);
+    for (cut, what) in cuts {
+        let new_len = (cut - start) as u32;
+        let hdr = (new_len << 3) | (2 << 1) | 1;
+        let mut f = bytes[..b.offset].to_vec();
+        f.extend_from_slice(&hdr.to_le_bytes()[..3]);
+        f.extend_from_slice(&bytes[start..cut]);
+        out.push((f, what));
+    }
+}
